@@ -317,10 +317,12 @@ def single_cases(tier):
                 for size in sizes:
                     if frame != 'image' and shape in ('polygon', 'line') and abs(POS[pos][1]) + 1.1 * SIZES_DEG[size] > 89:
                         continue
-                    for inc in ('absent', True, False):
+                    for inc in ('absent', True, False, 0, 1):
                         for typ in (None, 'ann'):
                             if tier == 'quick' and typ == 'ann' and inc is True:
                                 continue
+                            if isinstance(inc, int) and not isinstance(inc, bool) and (pos != poss[0] or typ):
+                                continue        # include given as the integers 0 / 1 (what the DS9 reader stores)
                             spec = {'shape': shape, 'frame': frame, 'pos': pos, 'size': size, 'include': inc, 'type': typ}
                             if shape in ('ellipse', 'rectangle') and pos == 1:
                                 spec['angle_unit'] = 'rad' if inc is False else 'arcmin'
@@ -501,6 +503,11 @@ def read_lines():
                 [{'kind': 'sky', 'frame': 'galactic', 'include': True, 'shape': 'circle', 'coords': [(10.0, 5.0)], 'sizes': [1.0], 'angle': None, 'visual': {'color': 'red', 'linewidth': '3'}},
                  {'kind': 'sky', 'frame': 'galactic', 'include': True, 'shape': 'circle', 'coords': [(11.0, 5.0)], 'sizes': [1.0], 'angle': None, 'visual': {'color': 'blue', 'linewidth': '3'}},
                  {'kind': 'sky', 'frame': 'fk5', 'include': True, 'shape': 'circle', 'coords': [(12.0, 5.0)], 'sizes': [1.0], 'angle': None, 'visual': {'color': 'blue', 'linewidth': '1'}}]))
+    # several global lines: a later one overrides the keys it names and keeps the others
+    out.append(('global/two', f'{hdr}global coord=GALACTIC, color=blue, linewidth=3\nglobal color=green, symsize=2\ncircle[[10.0deg, 5.0deg], 1.0deg]\n'
+                'global coord=J2000\ncircle[[12.0deg, 5.0deg], 1.0deg], linewidth=1\n',
+                [{'kind': 'sky', 'frame': 'galactic', 'include': True, 'shape': 'circle', 'coords': [(10.0, 5.0)], 'sizes': [1.0], 'angle': None, 'visual': {'color': 'green', 'linewidth': '3'}},
+                 {'kind': 'sky', 'frame': 'fk5', 'include': True, 'shape': 'circle', 'coords': [(12.0, 5.0)], 'sizes': [1.0], 'angle': None, 'visual': {'color': 'green', 'linewidth': '1'}}]))
     # pixels
     pb = {'kind': 'pixel', 'frame': 'image', 'include': True}
     out.append(('pix/circle', f'{hdr}circle[[10.5pix, 20.25pix], 5.0pix], coord=image\n', [{**pb, 'shape': 'circle', 'coords': [(10.5, 20.25)], 'sizes': [5.0], 'angle': None}]))
